@@ -42,6 +42,22 @@ def main(out, seed, tier):
                                   "style /%s: %d of the first %d numbers differ; first: number %d -> %r, §12.4.2 says %r"
                                   % (st, len(bad), d["n"], n, got, want), {"style": st, "number": n, "got": got, "want": want})
             else:
+                # ---- the written form: an independent reader of the /Nums entries must compute the same labels
+                w = d.get("written")
+                if isinstance(w, list) and all(isinstance(x, list) for x in w):
+                    wr = [{"page": x[0], "style": (x[1] if x[1] in ("D", "R", "r", "A", "a") else "-"), "prefix": x[2], "start": (x[3] if x[3] is not None else 1)} for x in w]
+                    rec.count("written_trees_read_back")
+                    for i, _ in d["got"]:
+                        try:
+                            a, b = L.label(d["ranges"], i), L.label(wr, i)
+                        except Exception:
+                            continue
+                        if a != b:
+                            rec.violation("C27|written_page_labels_read_differently_by_independent_reader",
+                                          "page index %d: authored ranges give %r, the written /Nums give %r" % (i, a, b), {"ranges": d["ranges"], "written": w, "index": i})
+                            break
+                elif w is not None:
+                    rec.violation("C27|written_page_labels_malformed", str(w)[:300], {"ranges": d["ranges"]})
                 for i, got in d["got"]:
                     want = L.label(d["ranges"], i)
                     by = {}
